@@ -36,6 +36,9 @@ def main():
     # C02Sched: the Dedicated-SRAM clause at the level of the scheduler's bookkeeping (design.d/SchedMem.md; the stage that ties the
     # model to the real scheduler runs in ./check C12)
     ck.lean_stage(["VelaVerif.Props.C02", "VelaVerif.Props.C02Addr", "VelaVerif.Props.C02Sched"])
+    import pending
+
+    pending.register(ck)          # repairs written but not yet in the tree under test (harness/pending.py)
     if replay_ta_net(ck):
         return
     # address-generation link, function level: real Tensor methods against Model/TensorAddr.lean, Lean Spec on the real outputs
@@ -60,7 +63,7 @@ def main():
             ck.count("feature_" + f)
         if ans.get("bounds", 0) > 0:
             ck.violation(f"access outside published region extent: {ans['bounds_msgs'][0]} (network {o['idx']} {o['profile']} {o.get('opts')})",
-                         stream_checks.replay_obj(o, si, ans, line))
+                         stream_checks.replay_obj(o, si, ans, line), key=stream_checks.classify_source(o, ans['bounds_msgs'][0]))
     # Dedicated-SRAM clause: published fast-scratch extent <= configured arena cache size
     for o in outs:
         ext = o.get("extents")
